@@ -183,7 +183,7 @@ func boundedUnq(name []byte, quoted bool) []byte {
 }
 
 //@ func (*objectNamespace).insert
-//@ property C01 C02 C08
+//@ property C01 C02 C03 C08
 //@ bounded Go maps are outside the verifier's subset (the namespace switches to a map beyond 64 names)
 //@ prepare sel := boundedHash(name); k := int(sel % 81); ns = boundedBuildNamespace(k); if quoted && k > 0 { name = boundedName(boundedPick(sel/81, k)) } else { name = append([]byte("x"), boundedName(int(sel%600))...) }; quoted = sel%2 == 1; if quoted { name = append(append([]byte{'"'}, name...), '"'); if sel%4 == 3 { name = append([]byte(`"\u006e`), name[2:]...) } }
 //@ ensures duplicate-detection: boundedInsertOK(ns, boundedUnq(name, quoted), result)
